@@ -396,8 +396,82 @@ func (e *Engine) VerifyUnit(key string, timeoutMs, par int, cross bool, dump str
 	return e.VerifyFunction(fn, ct, timeoutMs, par, cross)
 }
 
-func (e *Engine) VerifyLemma(ct *Contract, timeoutMs, par int, cross bool) *UnitResult {
-	return &UnitResult{Unit: ct.Key, Kind: "lemma", Contract: ct, Error: "lemmas not implemented"}
+// VerifyLemma proves a closed statement over spec functions:
+//
+//	//@ lemma name
+//	//@ vars a T, b U
+//	//@ requires ...
+//	//@ ensures ...
+func (e *Engine) VerifyLemma(ct *Contract, timeoutMs, par int, cross bool) (res *UnitResult) {
+	res = &UnitResult{Unit: ct.Key, Kind: "lemma", Contract: ct, Props: ct.Props}
+	start := time.Now()
+	x := e.NewExec(ct.Key)
+	x.safety = false
+	defer func() {
+		if r := recover(); r != nil {
+			if u, ok := r.(unsupported); ok {
+				res.Error = u.Error()
+				return
+			}
+			panic(r)
+		}
+	}()
+	scope := e.Pkg.Func("init")
+	s := x.initialState()
+	env := &specEnv{x: x, fn: scope, st: s, old: s, names: map[string]Value{}}
+	for _, v := range ct.Vars {
+		f := strings.Fields(v)
+		if len(f) < 2 {
+			unsup("lemma vars: want 'name type', got %q", v)
+		}
+		te, err := parseSpecExpr(strings.Join(f[1:], " "))
+		if err != nil {
+			unsup("lemma var type: %v", err)
+		}
+		t := env.resolveType(te)
+		if t == nil {
+			unsup("lemma var %s: unknown type %s", f[0], f[1])
+		}
+		val := x.freshValue(s, f[0], t)
+		env.names[f[0]] = val
+		for k, l := range val.L {
+			nm := f[0]
+			if len(val.L) > 1 {
+				nm = fmt.Sprintf("%s.%d", f[0], k)
+			}
+			x.C.Inputs = append(x.C.Inputs, InputSym{Name: nm, Term: l})
+		}
+	}
+	x.entry = s.Clone()
+	for _, rq := range ct.Requires {
+		x.C.Assume(env.evalBool(rq.Expr))
+	}
+	x.C.Cover(ct.Key+"#cover.requires", fmt.Sprintf("%s:%d", filepath.Base(ct.File), ct.Line), True)
+	for k, en := range ct.Ensures {
+		x.obligeKnown(env, fmt.Sprintf("%s#ensures%d", ct.Key, k), "lemma", fmt.Sprintf("%s:%d", filepath.Base(en.File), en.Line), en.Text, True, env.evalBool(en.Expr))
+	}
+	for _, ex := range ct.Observes {
+		pe, err := parseSpecExpr(ex)
+		if err != nil {
+			unsup("observe: %v", err)
+		}
+		v := env.eval(pe)
+		for k, l := range v.L {
+			x.C.Observe(fmt.Sprintf("%s.%d", ex, k), l)
+		}
+	}
+	res.GenMs = time.Since(start).Milliseconds()
+	t1 := time.Now()
+	x.C.Solve(timeoutMs, par, cross)
+	res.SolveMs = time.Since(t1).Milliseconds()
+	res.Obls = x.C.Obls
+	res.Inputs = x.C.Inputs
+	res.Abstracted = x.C.Abstracted
+	for k := range x.C.Trusted {
+		res.Trusted = append(res.Trusted, k)
+	}
+	sort.Strings(res.Trusted)
+	return res
 }
 
 func (e *Engine) VerifyRegion(ct *Contract, timeoutMs, par int, cross bool) *UnitResult {
